@@ -20,7 +20,7 @@ def main():
     tier = 'quick'
     if '--tier' in args:
         i = args.index('--tier'); tier = args[i + 1]; del args[i:i + 2]
-    checks = args or [sid.split('_')[0].rstrip('b')]
+    checks = args or [sid.split('_')[0].rstrip('abcdefgh')]
     sdir = os.path.join(ROOT, 'seeded', sid)
     wt = f'/tmp/mut_{sid}'
     out = f'/tmp/mut_out_{sid}'
